@@ -527,6 +527,8 @@ def corpus():
         [fixed_job([], [st_printf('{2} {1} {0}', [lit(75), lit(50), lit(120)])])],
         [fixed_job([], [st_print(lit('')), st_print(lit(2)), st_print(lit('')), st_print(lit(3))])],
         [fixed_job([], [st_printf('x\\n\\n'), st_print(lit(3)), st_printf('\\n'), st_printf('{:>8.2f}|{:.0f}|{:<6}|', [lit(2.675), lit(2.5), lit('ab')])])],
+        # the two characters backslash-n inside a VALUE are written as they are (only the format's own are line breaks)
+        [fixed_job(['assign path "C:\\new\\lights"'], [st_printf('{}|{path}\\n', [lit('a\\nb')], ['path']), st_print(lit('a\\nb'))])],
     ]
     return cases
 
